@@ -30,6 +30,12 @@ def c01Case : P String := do
   let items ← list item
   pure (if C01.checkTrace c items.length ms items then "ok" else "reject")
 
+/-- verified monitor for C05 (queued): `c05 <fin0> <items>` -/
+def c05Case : P String := do
+  let fin0 ← nat
+  let items ← list item
+  pure (if C05.idle fin0 items.length items then "ok" else "reject")
+
 def handle (line : String) : String :=
   match (line.trimAscii.toString.splitOn " ").filter (· ≠ "") with
   | [] => "bad-input"
@@ -40,6 +46,7 @@ def handle (line : String) : String :=
       let r := match kind with
         | "flat" => run flatCase ns
         | "c01" => run c01Case ns
+        | "c05" => run c05Case ns
         | _ => none
       r.getD "bad-input"
 
